@@ -170,10 +170,14 @@ func VerifC08_V2Session() {
 		vAssume(PayloadType(pt) != PayloadTypeOEM)
 		s.PayloadDescriptor = PayloadDescriptor{PayloadType: PayloadType(pt)}
 	}
-	alg := vChoice(4) // 0 unauthenticated; 1..3 HMAC-SHA1-96, HMAC-MD5-128, HMAC-SHA256-128
+	// 0 unauthenticated; 1..3 HMAC-SHA1-96, HMAC-MD5-128, HMAC-SHA256-128; 4 the
+	// authenticated flag with integrity algorithm None (a trailer with an empty AuthCode)
+	alg := vChoice(5)
 	var key []byte
 	macLen := 0
-	if alg > 0 {
+	if alg == 4 {
+		s.Authenticated = true
+	} else if alg > 0 {
 		s.Authenticated = true
 		key = vBytes(20)
 		s.IntegrityAlgorithm = vIntegrity(alg, key)
@@ -189,7 +193,10 @@ func VerifC08_V2Session() {
 	if s.PayloadType == PayloadTypeOEM {
 		hdr = 18
 	}
-	if alg > 0 {
+	if alg == 4 {
+		q := (4 - (hdr+n+2)%4) % 4
+		vAssert(len(wire) == hdr+n+q+2, "c08-v2session-authenticated-length")
+	} else if alg > 0 {
 		q := (4 - (hdr+n+2)%4) % 4
 		vAssert(len(wire) == hdr+n+q+2+macLen, "c08-v2session-authenticated-length")
 		vAssert(vBytesEq(wire[len(wire)-macLen:], refHMAC(alg, key, wire[:len(wire)-macLen])[:macLen]), "c08-v2session-authcode-covers-header-to-next-header")
@@ -197,7 +204,7 @@ func VerifC08_V2Session() {
 		vAssert(len(wire) == hdr+n, "c08-v2session-unauthenticated-length")
 	}
 	d := V2Session{}
-	if alg > 0 {
+	if alg > 0 && alg < 4 {
 		d.IntegrityAlgorithm = vIntegrity(alg, key)
 	}
 	err = d.DecodeFromBytes(wire, gopacket.NilDecodeFeedback)
